@@ -2,8 +2,8 @@
 # Must-fail corpus: every archived seeded change (seeded/<prop>-<n>/patch.diff) is applied to a scratch copy of
 # /repo and the property's check must report at least one violation. Usage: selftest.sh [seed-name...]
 # (default: all). Prints one line per seed and a summary; exit 1 if a seed that is recorded as detected passes.
-D=/var/tmp/govc-selftest/repo
-mkdir -p /var/tmp/govc-selftest
+S=/var/tmp/govc-selftest-$$; D=$S/repo
+mkdir -p $S
 SEEDS="$@"
 [ -z "$SEEDS" ] && SEEDS=$(ls /verif/seeded | grep -v PROMPT | sort)
 bad=0; n=0
@@ -24,6 +24,6 @@ for s in $SEEDS; do
     echo "$s: detected ($T violations, $R reproduced on the real code)"
   fi
 done
-rm -rf /var/tmp/govc-selftest
+rm -rf $S
 echo "selftest: $n seeds, $bad regressions"
 [ $bad -eq 0 ]
